@@ -191,6 +191,33 @@ def gen_case(rng, cfg, idx):
                 shapes[out2] = shapes[out]
                 results.append(out2)
                 st.append([rng.choice(["clear", "backward"]), out2])
+        elif r < 0.985:
+            # a NumPy view taken while its owner is locked (born read-only), the locking graph then dropped (owner writeable again, the view
+            # still read-only): view and owner are handed to one operation in EITHER order, which is dropped or back-propagated - the view ends
+            # up with its owner's original flag
+            o = new("a")
+            s = (rng.randint(2, 3),)
+            st.append(["arr", o, list(s), False, "C"])
+            shapes[o] = s
+            g = new("r")
+            st.append(["op", g, rng.choice(UN), [o], None, None])
+            v = new("a")
+            st.append(["aview", v, o, "full"])
+            shapes[v] = s
+            st.append(["del", g])
+            arrs.extend([o, v])
+            out = new("r")
+            ops = [v, o] if rng.random() < 0.6 else [o, v]
+            if rng.random() < 0.5 and same(s):
+                ops.insert(rng.randint(0, 2), rng.choice(same(s)))
+            st.append(["op", out, "add_sequence" if len(ops) > 2 else rng.choice(BI), ops, None, None])
+            shapes[out] = s
+            if rng.random() < 0.5:
+                st.append([rng.choice(["backward", "del"]), out])
+                if st[-1][0] == "backward":
+                    results.append(out)
+            else:
+                results.append(out)
         else:
             st.append(["gc"])
     # drop order: random permutation of everything that is left
